@@ -3,6 +3,7 @@ CONSTANTS
   Srv = {"s1", "s2"}
   Ins = {"i1"}
   MaxVal = 2
+  InnerWD = FALSE
   MaxEnv = 6
   MaxLife = 1
 INVARIANTS InvNoDeath
